@@ -68,6 +68,8 @@ def run(rep, tier, rng):
     # spans whose cycle count is around 2^k - 1: no room for a HALT row before the random row
     for k in list(range(56, 64)) + list(range(118, 126)):
         cases.append(gen_exec.case_line(2**32 - 1, [1, 2, 3], [], "T 0 " + gen_exec.span(["noop"] * k)) + " | 5")
+    # chiplet rows sweeping through 2^k - 1 with the chiplets dominating the trace length
+    cases += [c + " | 5" for c in c03.chiplet_boundary_programs()]
     out = common.run_impl("airfull", cases, tag="c12")
     for c, x in zip(cases, out):
         if not x.startswith("OK"):
@@ -89,7 +91,11 @@ def run(rep, tier, rng):
                 feats["respan"] = {"block_stack_table:last", "chiplets_bus:last"}
             if re.search(r"\bDC?\b", prog):
                 feats["dyn"] = {"chiplets_bus:last"}
-            if re.search(r"\bK\b", prog):
+            nk = len(re.findall(r"\bK\b", prog))
+            if nk == 1:
+                # with a single kernel procedure only the virtual table is known not to end at its value
+                feats["kernel"] = {"chiplets_virtual_table:last"}
+            elif nk > 1:
                 feats["kernel"] = {"chiplets_virtual_table:last", "chiplets_bus:last"}
             covered = set().union(*feats.values()) if feats else set()
             base_d = {"kind": "search", "family": "airfull", "case": c, "impl": x, "which": "bus_bad", "columns": sorted(cols), "respan": respan}
